@@ -49,18 +49,20 @@ def plan(tier, seed):
         return [{'kind': 'active', 'k': k, 'n': 4, 'name': 'active%d' % k} for k in range(4)] + \
                [{'kind': 'keys', 'k': k, 'n': 6, 'name': 'keys%d' % k} for k in range(6)] + \
                [{'kind': 'random', 'count': 2500, 'name': 'rand%d' % k} for k in range(6)] + \
-               [{'kind': 'norule', 'k': k, 'n': 2, 'extra': 600, 'name': 'norule%d' % k} for k in range(2)]
+               [{'kind': 'norule', 'k': k, 'n': 2, 'extra': 600, 'name': 'norule%d' % k} for k in range(2)] + \
+               [{'kind': 'module', 'count': 4000, 'name': 'module%d' % k} for k in range(2)]
     return [{'kind': 'active', 'k': k, 'n': 8, 'full': True, 'name': 'active%d' % k} for k in range(8)] + \
            [{'kind': 'keys', 'k': k, 'n': 12, 'full': True, 'name': 'keys%d' % k} for k in range(12)] + \
            [{'kind': 'random', 'count': 40000, 'name': 'rand%d' % k} for k in range(12)] + \
-           [{'kind': 'norule', 'k': k, 'n': 8, 'extra': 20000, 'full': True, 'name': 'norule%d' % k} for k in range(8)]
+           [{'kind': 'norule', 'k': k, 'n': 8, 'extra': 20000, 'full': True, 'name': 'norule%d' % k} for k in range(8)] + \
+           [{'kind': 'module', 'count': 60000, 'name': 'module%d' % k} for k in range(4)]
 
 
 def floors(tier):
     return {'evaluations': 40000, 'distinct_nontrivial': 20000, 'outputs_parsed_strictly': 30000,
             'ascii_checked': 10000, 'fail_policy_decided': 5000, 'fail_policy_raised': 200,
             'histkeys:scheme': 5, 'histkeys:ruleset': 2, 'histkeys:policy': 5, 'k1_witness_checked': 5,
-            'codepoints_probed_alone': 1000}
+            'codepoints_probed_alone': 1000, 'module_function_calls': 5000, 'module_fail_policy_raised': 100}
 
 
 def setup(rec):
@@ -171,7 +173,52 @@ def evaluate(s, ruleset, scheme, policy, rec):
     return None
 
 
+def evaluate_module(s, scheme, policy, non_ascii_only, rec):
+    """The documented convenience function latexencode.unicode_to_latex() ('defaults' rules; encoder objects are
+    cached inside the library across calls, so calls are made in random option order within one process)."""
+    from pylatexenc import latexencode
+    tab = table('defaults')
+    ns = unicodedata.normalize('NFC', s)
+    rec.monitor('module_function_calls')
+    try:
+        out = latexencode.unicode_to_latex(s, non_ascii_only=non_ascii_only, replacement_latex_protection=scheme,
+                                           unknown_char_policy=policy, unknown_char_warning=False)
+        raised = False
+    except ValueError as e:
+        raised = True
+        if policy != 'fail':
+            return "module-level unicode_to_latex: ValueError with unknown_char_policy=%r: %s" % (policy, e)
+    except Exception as e:
+        return 'module-level unicode_to_latex raised %s: %s' % (type(e).__name__, e)
+    if policy == 'fail':
+        # with non_ascii_only every character below 127 is passed through before any rule is looked at (documented)
+        must = any(not has_rule_or_passes(c, tab) and not (non_ascii_only and ord(c) < 127) for c in ns)
+        if must != raised:
+            return "module-level unicode_to_latex, policy 'fail': ValueError %s although %s" % (
+                'raised' if raised else 'not raised',
+                'some character has neither a rule nor is pass-through ASCII' if must
+                else 'every character has a rule or is pass-through ASCII')
+        if raised:
+            rec.monitor('module_fail_policy_raised')
+            return None
+    if policy in ('replace', 'ignore', 'unihex') and not out.isascii():
+        return 'module-level unicode_to_latex: output %r is not pure ASCII under unknown_char_policy=%r' % (out, policy)
+    if not non_ascii_only:
+        try:
+            parse(out, tolerant=False)
+        except LatexWalkerParseError as e:
+            return 'module-level unicode_to_latex: output %r does not parse in strict mode: %s' % (
+                out, str(getattr(e, 'msg', e))[:100])
+    return None
+
+
 def check_case(case, rec):
+    if case.get('what') == 'module':
+        err = evaluate_module(case['s'], case['scheme'], case['policy'], case['non_ascii_only'], rec)
+        if err:
+            rec.violation(case, '%s | input %r scheme %s policy %s non_ascii_only %s' % (
+                err, case['s'], case['scheme'], case['policy'], case['non_ascii_only']), mech='module')
+        return
     s, ruleset, scheme, policy = case['s'], case['ruleset'], case['scheme'], case['policy']
     rec.hist('scheme', scheme)
     rec.hist('ruleset', ruleset)
@@ -243,6 +290,25 @@ def run_shard(desc, rec):
                 rec.case()
                 rec.nontrivial((s, rs, sc, po))
                 check_case({'s': s, 'ruleset': rs, 'scheme': sc, 'policy': po}, rec)
+    elif kind == 'module':
+        keys = [k for k in sorted(table('defaults')) if k != 127]
+        pool = ACTIVE + ['a', 'b', ' ', 'e']
+        for i in range(desc['count']):
+            cs = []
+            for _ in range(rng.randint(1, 6)):
+                r = rng.random()
+                if r < 0.4:
+                    cs.append(rng.choice(pool))
+                elif r < 0.7:
+                    cs.append(chr(rng.choice(keys)))
+                else:
+                    cs.append(rng.choice(['\u4e2d', '\ue000', '\U0001F600', '\u0378', '\x01', '\u3042', '\u05d0']))
+            s = ''.join(cs)
+            case = {'what': 'module', 's': s, 'scheme': rng.choice(SCHEMES), 'policy': rng.choice(POLICIES),
+                    'non_ascii_only': rng.random() < 0.3}
+            rec.case()
+            rec.nontrivial((s, case['scheme'], case['policy'], case['non_ascii_only']))
+            check_case(case, rec)
     elif kind == 'norule':
         # every code point below U+0400 (and a sample above, incl. surrogates, private use, unassigned, astral):
         # the boundary between pass-through ASCII, characters with a rule and characters left to the policy
